@@ -84,6 +84,7 @@ def check(run):
                       'images of each other (near-mirror statement pairs must be equal under actual<->expected)')
     run.floor('C15-MIRROR', nst, 150)
     cmdfiles(run, p, fc)
+    rawlines(run, p, fc)
 
 
 def cmdfiles(run, p, fc):
@@ -112,3 +113,59 @@ def cmdfiles(run, p, fc):
                                                          else 'neither a caller path nor written by write_file'),
                            fn=f, node=x)
     run.floor('C15-CMDFILES', n, 4)
+
+
+def rawlines(run, p, fc):
+    run.rule('C15-RAWLINES', 'what add_failures writes as the actual-raw- / expected-raw- file is the caller\'s own content: the value '
+                             'passed as actual= / expected= is the function\'s parameter, or a plain copy of it taken before the '
+                             'parameter is first rewritten (never the list after remove_lines / preprocess / stripping)')
+    n = 0
+    for f in fc.methods.values():
+        top = f.node.body
+        for x in p.own_nodes(f):
+            if not (isinstance(x, ast.Call) and isinstance(x.func, ast.Attribute) and x.func.attr == 'add_failures'):
+                continue
+            for kw in x.keywords:
+                if kw.arg not in ('actual', 'expected'):
+                    continue
+                n += 1
+                key = '%s::%s::add_failures(%s=)' % (f.rel, f.short, kw.arg)
+                v = kw.value
+                if isinstance(v, ast.Constant) and v.value is None:
+                    run.ob('C15-RAWLINES', key, True, 'no in-memory content is handed over', fn=f, node=x, nontrivial=False)
+                    continue
+                if not isinstance(v, ast.Name):
+                    run.ob('C15-RAWLINES', key, False, '%s= receives the computed value %s' % (kw.arg, ast.unparse(v)), fn=f, node=x)
+                    continue
+                ok, why = _is_raw(p, f, v.id)
+                run.ob('C15-RAWLINES', key, ok, '%s=%s: %s' % (kw.arg, v.id, why), fn=f, node=x)
+    run.floor('C15-RAWLINES', n, 3)
+
+
+def _stores(p, f, name):
+    from .c10 import stored_names
+    return [s for s in p.own_nodes(f) if name in stored_names(s)]
+
+
+def _is_raw(p, f, name):
+    """name is a parameter never rebound, or bound once, at function top level, to such a parameter / to a parameter
+    that is only rebound later in source order."""
+    st = _stores(p, f, name)
+    if name in f.params:
+        if not st:
+            return True, 'the parameter itself, never rebound'
+        return False, 'the parameter is rebound before it is handed over (%s)' % '; '.join(
+            '%d: %s' % (s.lineno, norm(s)[:50]) for s in st[:3])
+    if len(st) == 1 and isinstance(st[0], ast.Assign) and isinstance(st[0].value, ast.Call) and \
+            isinstance(st[0].value.func, ast.Attribute) and st[0].value.func.attr == 'read' and not st[0].value.args:
+        return True, 'bound once, to the whole content read from the file'
+    if len(st) != 1 or not isinstance(st[0], ast.Assign) or st[0] not in f.node.body:
+        return False, 'not a single top-level copy of a parameter'
+    a = st[0]
+    src = a.value
+    if not (isinstance(src, ast.Name) and src.id in f.params and len(a.targets) == 1 and isinstance(a.targets[0], ast.Name)):
+        return False, 'bound to %s, not to a parameter' % ast.unparse(src)
+    early = [s for s in _stores(p, f, src.id) if s.lineno <= a.lineno]
+    if early:
+        return False, 'copied from %s after it was rewritten at line %d' % (src.id, early[0].lineno)
+    return True, 'a copy of parameter %s taken before any rewrite' % src.id
